@@ -107,11 +107,30 @@ def ordered_partitions(k):
 
 
 # ---------------------------------------------------------------- the sentence pool
+SCENARIO = ['g3']       # 'g3': the seven-sentence pool below; 'amb': equal-score ambiguity through two derived categories
+
+
+def amb_grammar():
+    """A B -> P, B C -> Q, P C -> S, A Q -> S: 'A B C' has two derivations with equal scores that go through different
+    derived categories (P, Q are not supertags, so their ids depend on which sentences were parsed before)"""
+    return S.table_grammar('AMB', ['A', 'B', 'C'], ['S'],
+                           {('A', 'B'): [('P', 'ab')], ('B', 'C'): [('Q', 'bc')], ('P', 'C'): [('S', 'pc')], ('A', 'Q'): [('S', 'aq')]}, {}, True)
+
+
 def grammar():
+    if SCENARIO[0] == 'amb':
+        return amb_grammar()
     return [g for g in C01.grammars() if g.name == 'G3.L'][0]
 
 
-CFG = dict(unary_penalty=0.5, use_beta=False, pruning_size=1, nbest=2, max_length=4)
+class _Cfg(dict):
+    pass
+
+
+def cfg():
+    if SCENARIO[0] == 'amb':
+        return dict(unary_penalty=0.5, use_beta=False, pruning_size=1, nbest=SCENARIO[1] if len(SCENARIO) > 1 else 1, max_length=4)
+    return dict(unary_penalty=0.5, use_beta=False, pruning_size=1, nbest=2, max_length=4)
 
 
 def sent(tagidx, depval=-1.0, dep_over=None):
@@ -126,8 +145,18 @@ def sent(tagidx, depval=-1.0, dep_over=None):
     return tag, dep
 
 
+def sent3(tagidx, depval=-1.0):
+    n = len(tagidx)
+    tag = np.full((n, 3), -4.0, dtype=np.float32)
+    for i, t in enumerate(tagidx):
+        tag[i, t] = -0.5
+    return tag, np.full((n, n + 1), depval, dtype=np.float32)
+
+
 def sentence_pool():
     """name -> (tag, dep). G3: tags N(0), V(1); N->NP->T unary; NP V->S, T V->S, N N->N, S NP->S"""
+    if SCENARIO[0] == 'amb':
+        return {'ab': sent3([0, 1]), 'bc': sent3([1, 2]), 'abc': sent3([0, 1, 2]), 'cab': sent3([2, 0, 1])}
     pool = {
         'nv': sent([0, 1]),                       # parseable, creates NP, T, S (not in the tag list)
         'nnv': sent([0, 0, 1], dep_over={(0, 2): 0.0}),   # parseable, 3 words
@@ -206,7 +235,7 @@ def run_batch(names, pool, max_step, processes, max_chunk_size, schedule):
     parsing.Pool = vp
     parsing.time = VirtualTime(vp)
     res = parsing.run(docs, srs, list(g.tags), list(g.roots), g.binary, g.unary, processes=processes,
-                      max_chunk_size=max_chunk_size, max_step=max_step, **CFG)
+                      max_chunk_size=max_chunk_size, max_step=max_step, **cfg())
     return res, len(vp.tasks)
 
 
@@ -215,6 +244,7 @@ def explore_batches(shard):
     parsing, rt = boot.load_parsing()
     import depccg._parsing as mod
     install_observer(mod, rt)
+    SCENARIO[:] = shard.get('scenario', ['g3'])
     max_step, pops = shard['max_step'], shard['pops']
     pool = sentence_pool()
     solo = {}
@@ -226,7 +256,7 @@ def explore_batches(shard):
         except Exception as e:
             st.violation('batch/raised', f'a one-sentence batch ({nm}) raised {e!r}', engine='batch', batch=[nm], processes=1, max_chunk_size=20, schedule=[], max_step=max_step)
             return st
-    expect_failed = {'vv', 'long', 'hard'}
+    expect_failed = {'vv', 'long', 'hard'} if SCENARIO[0] == 'g3' else {'ab', 'bc', 'cab'}
     for nm, r in solo.items():
         if (r == 'FAILED') != (nm in expect_failed):
             # parse_sentence itself behaves as designed (checked in setup_budget), so this is the code under test
@@ -249,7 +279,7 @@ def explore_batches(shard):
                         st.count('schedules_pruned_k4')
                 for sched in scheds:
                     _state_log.clear()
-                    base = dict(engine='batch', batch=list(names), processes=processes, max_chunk_size=mcs, schedule=sched, max_step=max_step)
+                    base = dict(engine='batch', batch=list(names), processes=processes, max_chunk_size=mcs, schedule=sched, max_step=max_step, scenario=list(SCENARIO))
                     try:
                         res, ntasks = run_batch(list(names), pool, max_step, processes, mcs, sched)
                     except Exception as e:
@@ -274,6 +304,48 @@ def explore_batches(shard):
                     if len(set(names)) > 1 and any(solo[n] != 'FAILED' for n in names) and any(solo[n] == 'FAILED' for n in names):
                         st.count('nontrivial')
     st.sample(dict(batch=list(shard['batches'][0]), processes=2, max_chunk_size=1, schedule=[[1], [0]], solo={k: str(v)[:120] for k, v in solo.items()}), cap=1)
+    return st
+
+
+def explore_ties(shard):
+    """ambiguity scenario, exhaustively over the best-head assignment of the target sentence 'A B C' (4^3 dependency patterns): its two
+    derivations go through the derived categories P and Q, whose ids depend on which warm-up sentences were parsed before; the result must not"""
+    st = core.Stats()
+    nb, lo, hi = shard
+    SCENARIO[:] = ['amb', nb]
+    base = sentence_pool()
+    pats = list(itertools.product(range(4), repeat=3))[lo:hi]
+    for heads in pats:
+        tag, _ = sent3([0, 1, 2])
+        dep = np.full((3, 4), -4.0, dtype=np.float32)
+        for i, h in enumerate(heads):
+            dep[i, h] = -0.5
+        pool = dict(base)
+        pool['t'] = (tag, dep)
+        try:
+            solo, _ = run_batch(['t'], pool, 10000000, 1, 20, [])
+            want = canon_result(solo[0])
+        except Exception as e:
+            st.violation('batch/raised', f'a one-sentence batch raised {e!r}', engine='ties', heads=list(heads), nbest=nb)
+            continue
+        for hist in (('ab',), ('bc',), ('ab', 'bc'), ('bc', 'ab'), ('abc',), ('cab', 'bc')):
+            for after in ((), ('ab',)):
+                batch = list(hist) + ['t'] + list(after)
+                st.count('executions')
+                st.count('tie_histories')
+                try:
+                    res, _ = run_batch(batch, pool, 10000000, 1, 20, [])
+                except Exception as e:
+                    st.violation('batch/raised', f'valid batch raised {e!r}', engine='ties', heads=list(heads), nbest=nb, batch=batch)
+                    continue
+                got = canon_result(res[len(hist)])
+                st.observe(heads, nb, batch, got)
+                if got != want:
+                    st.violation('batch/differs/ties', f'target sentence with best heads {heads} after {list(hist)}: {str(got)[:150]} but alone it gives {str(want)[:150]}',
+                                 engine='ties', heads=list(heads), nbest=nb, batch=batch)
+                if isinstance(want, tuple) and len(want) >= 1:
+                    st.count('nontrivial')
+    SCENARIO[:] = ['g3']
     return st
 
 
@@ -328,7 +400,7 @@ def shape_faults(st, max_step):
             parsing.time = VirtualTime(vp)
             st.count('fault_cases')
             try:
-                parsing.run(docs, srs, cats, list(g.roots), g.binary, g.unary, processes=2, max_chunk_size=mcs, max_step=max_step, **CFG)
+                parsing.run(docs, srs, cats, list(g.roots), g.binary, g.unary, processes=2, max_chunk_size=mcs, max_step=max_step, **cfg())
                 raised = None
             except Exception as e:
                 raised = e
@@ -351,7 +423,7 @@ def real_pool_conformance(st, max_step):
         parsing.Pool = multiprocessing.get_context('fork').Pool
         parsing.time = time
         try:
-            r = parsing.run(docs, srs, list(g.tags), list(g.roots), g3_binary, g3_unary, processes=2, max_chunk_size=1, max_step=max_step, **CFG)
+            r = parsing.run(docs, srs, list(g.tags), list(g.roots), g3_binary, g3_unary, processes=2, max_chunk_size=1, max_step=max_step, **cfg())
             st.count('real_pool_runs')
             if [canon_result(x) for x in r] != [canon_result(x) for x in v]:
                 st.violation('pool/conformance', 'real multiprocessing.Pool and the virtual pool disagree', engine='realpool', batch=names)
@@ -376,12 +448,25 @@ def check(tier, seed):
     max_step, pops = setup_budget()
     bs = core.rotate(batches(tier), seed)
     shards = [dict(batches=blk, max_step=max_step, pops=pops, tier=tier) for blk in core.chunked(bs, max(1, len(bs) // 64))]
+    for nb in (1, 2):
+        SCENARIO[:] = ['amb', nb]
+        names = sorted(sentence_pool())
+        ab = []
+        for k in (1, 2, 3):
+            ab += list(itertools.product(names, repeat=k))
+        if tier == 'thorough':
+            ab += list(itertools.permutations(names, 4))
+        shards += [dict(batches=blk, max_step=10000000, pops={}, tier=tier, scenario=['amb', nb]) for blk in core.chunked(ab, max(1, len(ab) // 8))]
+    SCENARIO[:] = ['g3']
     st = core.pmap(explore_batches, shards)
+    SCENARIO[:] = ['g3']
+    st.merge(core.pmap(explore_ties, [(nb, lo, lo + 8) for nb in (1, 2) for lo in range(0, 64, 8)]))
+    SCENARIO[:] = ['g3']
     shape_faults(st, max_step)
     if not os.environ.get('VERIF_NO_REAL_POOL'):
         real_pool_conformance(st, max_step)
     return core.finish(PROP, tier, seed, 'model_checking', st, t0,
-                       rule=('pool of 7 sentences for G3 (parseable creating new category ids, 3-word parseable, no parse, too long, exactly max_length words with equal-score ambiguity, '
+                       rule=('pool of 7 sentences for G3 and a second scenario (grammar AMB: equal-score ambiguity through two derived categories whose ids depend on history; 4 sentences; 1-best and 2-best) (parseable creating new category ids, 3-word parseable, no parse, too long, exactly max_length words with equal-score ambiguity, '
                              'step budget exhausted, one word): every sequence of length <=3 with repetition and every permutation of subsets of size 4 (5 thorough) x processes {1,2,3,4} x max_chunk_size {0,1,2,20} '
                              'x every completion schedule of the chunk tasks (ordered set partitions between polls) on a virtual pool, depccg/parsing.py unmodified; result[i] must equal the solo '
                              'result of sentence i. Shape faults: every +-1 deviation of every array dimension / token count / list length / category list at every batch position must raise '
@@ -402,7 +487,15 @@ def replay(rec):
     install_observer(mod, rt)
     max_step, pops = setup_budget()
     st = core.Stats()
+    if rec.get('engine') == 'ties':
+        pats = list(itertools.product(range(4), repeat=3))
+        k = pats.index(tuple(rec['heads']))
+        st = explore_ties((rec['nbest'], k, k + 1))
+        for kk, v in st.viol.items():
+            print('REPRODUCED', kk, v[0]['what'][:400])
+        return 1 if st.viol else 0
     if rec.get('engine') == 'batch':
+        SCENARIO[:] = rec.get('scenario', ['g3'])
         pool = sentence_pool()
         res, _ = run_batch(rec['batch'], pool, rec['max_step'], rec['processes'], rec['max_chunk_size'], rec['schedule'])
         bad = 0
